@@ -160,6 +160,13 @@ def work_vectors(bins, seed, n, tmp):
     return dict(bad=bad, st=st, distinct=len(distinct), samples=samples)
 
 
+GITCONFIG_PREFS = [("column", "ui", "always"), ("status", "showUntrackedFiles", "no"), ("color", "ui", "always"), ("log", "decorate", "full"), ("log", "date", "iso"),
+                   ("format", "pretty", "fuller"), ("tag", "sort", "-version:refname"), ("status", "short", "true"), ("status", "branch", "true"),
+                   ("core", "quotePath", "false"), ("core", "pager", "cat"), ("init", "defaultBranch", "trunk"), ("user", "name", "Some Body"),
+                   ("log", "abbrevCommit", "true"), ("core", "abbrev", "12"), ("status", "relativePaths", "false"), ("versionsort", "suffix", "-rc"),
+                   ("status", "showStash", "true"), ("branch", "sort", "-committerdate"), ("log", "follow", "true"), ("diff", "renames", "copies")]
+
+
 def work_repo(bins, seed, idx, tmp):
     """git source: cwd / -C (absolute, relative), HOME, TZ, locale, repeats"""
     rng = random.Random("%s/%d" % (seed, idx))
@@ -187,6 +194,17 @@ def work_repo(bins, seed, idx, tmp):
         kind = rng.choice(["clean", "modified", "untracked", "clean"])
         repo.make_dirty(kind)
         os.makedirs(os.path.join(top, "otherhome"), exist_ok=True)
+        # a user-level git configuration made of presentation / convenience preferences: not repository state, not an argument
+        gitconfig = os.path.join(top, "otherhome", ".gitconfig")
+        prefs = [p for p in GITCONFIG_PREFS if rng.random() < 0.5] or [GITCONFIG_PREFS[0]]
+        if idx % 2 == 0 and GITCONFIG_PREFS[0] not in prefs:
+            prefs.append(GITCONFIG_PREFS[0])
+        if idx % 3 == 0 and GITCONFIG_PREFS[1] not in prefs:
+            prefs.append(GITCONFIG_PREFS[1])
+        with open(gitconfig, "w") as f:
+            for sec, key, val in prefs:
+                f.write("[%s]\n\t%s = %s\n" % (sec, key, val))
+        st["gitconfig_prefs_used"] = len(prefs)
         os.makedirs(os.path.join(path, "sub", "dir"), exist_ok=True) if kind != "clean" else None
         for cmd in (["version"], ["flow"], ["version", "--output-format", "zerv"], ["flow", "--output-format", "pep440"],
                     ["version", "--input-format", "pep440", "--output-format", "pep440"], ["version", "--input-format", "pep440", "--output-format", "zerv"],
@@ -199,6 +217,7 @@ def work_repo(bins, seed, idx, tmp):
                 ("-C . inside repo", cmd + ["-C", "."], path, {}),
                 ("-C ../proj from repo", cmd + ["-C", "../proj"], path, {}),
                 ("other HOME", cmd + ["-C", path], "/", {"HOME": os.path.join(top, "otherhome")}),
+                ("user gitconfig", cmd + ["-C", path], "/", {"HOME": os.path.join(top, "otherhome"), "GIT_CONFIG_GLOBAL": gitconfig}),
                 ("TZ+locale", cmd + ["-C", path], "/tmp", {"TZ": rng.choice(TZS[1:]), "LANG": rng.choice(LOCALES[2:5]), "LC_ALL": "tr_TR.UTF-8"}),
                 ("junk env", cmd + ["-C", path], "/", dict(rng.choice(JUNK))),
                 ("ci env", cmd + ["-C", path], "/", dict(rng.choice(JUNK[-8:-4]))),
